@@ -180,6 +180,13 @@ func bufferWidth(c *core.Ctx, f *ssa.Function, depth int) int64 {
 }
 
 func c01(c *core.Ctx) {
+	codec.Resolve = func(f *types.Func) (*ast.FuncDecl, *types.Info) {
+		fd, pk := c.P.FuncDecl(f)
+		if fd == nil || pk == nil {
+			return nil, nil
+		}
+		return fd, pk.TypesInfo
+	}
 	initOwners(c)
 	c.P.BuildSSA()
 	encodeFn := fn(c, "ua", "", "encode")
@@ -293,6 +300,31 @@ func c01(c *core.Ctx) {
 					d, e = normaliseBodyIdiom(d), normaliseBodyIdiom(e)
 				}
 				diffs := codec.Compare(d, e)
+				if len(diffs) > 0 {
+					// part of a codec may have been moved into a private helper method of the same receiver:
+					// compare again with such helpers inlined on both sides
+					var names []string
+					seenN := map[string]bool{}
+					for _, st := range append(append([]codec.Step{}, d...), e...) {
+						if st.Prim == "Delegate" && st.Callee != "" && !seenN[st.Callee] {
+							seenN[st.Callee] = true
+							names = append(names, st.Callee)
+						}
+					}
+					for _, n := range names {
+						codec.Inline, codec.InlineOnly = true, map[string]bool{n: true}
+						d2 := codec.Script(cp.dec, cp.pkg.TypesInfo, isBufferType, true)
+						e2 := codec.Script(cp.enc, cp.pkg.TypesInfo, isBufferType, false)
+						codec.Inline, codec.InlineOnly = false, nil
+						if cp.name == "ua.ExtensionObject" {
+							d2, e2 = normaliseBodyIdiom(d2), normaliseBodyIdiom(e2)
+						}
+						if len(codec.Compare(d2, e2)) == 0 && len(d2) > 0 {
+							d, e, diffs = d2, e2, nil
+							break
+						}
+					}
+				}
 				detail := fmtInt(len(d)) + " decode steps / " + fmtInt(len(e)) + " encode steps agree"
 				if len(diffs) > 0 {
 					detail = strings.Join(diffs, "; ")
